@@ -209,7 +209,15 @@ impl Property for C05 {
                         }
                     }
                     Ok(m) => {
-                        if m != sharings[xs].m {
+                        // chance acceptance under a garbage key: the first share presents the tag J of a
+                        // sharing Y (swapped in, or Y = X) whose message and coins together carry fewer
+                        // than 128 bits; the garbage decryption then equals (M_Y, R_Y) with probability
+                        // 2^-8(|M_Y|+|R_Y|) and the MAC legitimately verifies, returning M_Y.
+                        let presented_j = layout::parse_share(&first_bytes).map(|p| p.j);
+                        let weak_donor = sharings.iter().any(|y| Some(&y.reference.j) == presented_j.as_ref() && y.m == m && 8 * (y.m.len() + y.r.len()) < 128);
+                        if m != sharings[xs].m && weak_donor {
+                            ctx.stats.probe("ok_by_chance_under_tag_of_a_short_sharing");
+                        } else if m != sharings[xs].m {
                             return Err(Violation::new(
                                 "c05.wrong_message",
                                 "wrong_message",
